@@ -579,9 +579,42 @@ def main(tier):
                                 "obligation": "pc /\\ not(library value == oracle term) is unsat"})
         per_config.append({"config": cfg or "default", "EPSILON": data["eps"], "NUMERIC_PRECISION": data["digits"],
                            "outcomes": dict(cc)})
+    # the same assignments through a grounded operator: two numeric effects of one action that read each other's targets (a
+    # zero-arity fluent among them), every argument tuple, both iteration orders of the effect set -- the simultaneous
+    # semantics "old + v" must hold for each target (the kernels above evaluate one tree at a time)
+    from . import callsym
+    from gen import programs as G
+    grounded = []
+    for eff in (["and", ["increase", ["g"], ["f", "?x"]], ["increase", ["f", "?x"], ["g"]]],
+                ["and", ["assign", ["g"], ["f", "?x"]], ["decrease", ["f", "?y"], ["g"]]],
+                ["and", ["decrease", ["g"], ["*", ["g"], "0.5"]], ["assign", ["f", "?x"], ["+", ["g"], ["f", "?y"]]]],
+                ["and", ["increase", ["h", "?x", "?y"], ["g"]], ["assign", ["g"], ["h", "?x", "?y"]], ["decrease", ["f", "?x"], ["g"]]]):
+        text_ = G.domain_text([("act", G.PARAM_LISTS["P2"], ["and"], eff)], const=False)
+        for args in (["o1", "o2"], ["o1", "o1"]):
+            for order in (None, 1, 2):
+                grounded.append(dict(domain_text=text_, action="act", args=args, objects=dict(G.OBJECTS), mode="apply", order=order,
+                                     label="[through a grounded operator] " + str(eff), cap=8, max_paths=500))
+    g_out = Counter()
+    for t, r in zip(grounded, runner.pmap(callsym.run_task, grounded)):
+        total += 1
+        g_out[r["outcome"]] += 1
+        c[r["outcome"]] += 1
+        paths += r.get("paths", 0)
+        obligations += r.get("obligations", 0)
+        unconfirmed += r.get("unconfirmed", 0)
+        if r["outcome"] == "violation":
+            cx = r["cex"][0]
+            rep.violation(f"{t['label']} args={t['args']} order={t['order']}: {cx['what']}",
+                          {"property": "C12", "kind": "callsym", "task": t, "atoms_true": cx["atoms_true"], "fluents": cx["fluents"],
+                           "observed_vs_expected": cx["replay"]})
+        elif r["outcome"] == "inconclusive":
+            rep.inconclusive.append(f"{t['label']} {t['args']}: {r.get('detail')}")
+        elif r["outcome"] == "error":
+            rep.errors.append(f"{t['label']} {t['args']}: {r.get('detail')}")
     q = dict(agg)
     q["solver_seconds"] = round(solver_s, 2)
     rep.coverage.update({
+        "through_a_grounded_operator": {"tasks": len(grounded), "outcomes": dict(g_out)},
         "evaluations": total, "distinct_nontrivial": len(nontrivial),
         "rule": "one evaluation = one (configuration, kernel, tree shape/operator) explored over all feasible paths with "
                 "symbolic fluent values and symbolic constants; non-trivial = >=2 feasible paths (a division or a "
